@@ -85,7 +85,9 @@ CLAIMS = {
           "fixed; proved on the repaired code by a small disjunctive linear-fact domain), slot discipline of the three pending fields, "
           "the window expressions given to the transport/peek/reserve, the order of the compaction triple, status routing and the "
           "immediate-success condition; a buffer taken off the queue is launched, freed or still reachable (no orphan). Necessary conditions of stream preservation; the refinement itself is not decided.",
-  "note": "Trusted: STAILQ macros; the transport delivers at most the capacity it was given (its side is decided as N6, which C07 "
+  "note": "KNOWN FINDING (recorded, not repaired): cancelling a wait whose read was launched with a minimum above one byte loses the "
+          "bytes the transport had received but not yet reported (rule F8-cancel; replay notes/probe_netbuf_cancel.c; DESIGN.md section 5, H). "
+          "Trusted: STAILQ macros; the transport delivers at most the capacity it was given (its side is decided as N6, which C07 "
           "runs on network_read.c/network_write.c together with the would-block and completion rules). No obligation is an assumption. "
           "Not decided: equality of the delivered byte sequence with the sent one over all histories.",
   "technique": "static analysis: relational abstract interpretation (linear inequalities, Fourier-Motzkin entailment, inlined callees), dominance/typestate rules, sibling agreement",
